@@ -290,16 +290,29 @@ def table_search(facts, fn, adt, leaf=None):
         r = look(lf.ret())
         while r[0] == "agg" and r[2] == "Ok" and r[3]:
             r = look(r[3][0])
-        if not (is_call(r, "ok_or", "ok_or_else") and r[2]):
-            continue
-        fd = look(r[2][0])
-        while fd[0] == "mut" or is_call(fd, "copied", "cloned"):
-            fd = look(fd[1]) if fd[0] == "mut" else look(fd[2][0])
-        if not (is_call(fd, "find") and len(fd[2]) == 2):
-            continue
+        indexed = None
+        if r[0] == "index":
+            # `match TABLE.iter().position(|v| v.raw() == bytes) { Some(i) => Ok(TABLE[i]), None => Err(..) }`
+            from .rules.util import payload_of, norm
+            ps = payload_of(look(r[2]))
+            if ps is not None and is_call(ps, "position") and len(ps[2]) == 2:
+                indexed = look(r[1])
+                fd = ps
+            else:
+                continue
+        else:
+            if not (is_call(r, "ok_or", "ok_or_else") and r[2]):
+                continue
+            fd = look(r[2][0])
+            while fd[0] == "mut" or is_call(fd, "copied", "cloned"):
+                fd = look(fd[1]) if fd[0] == "mut" else look(fd[2][0])
+            if not (is_call(fd, "find") and len(fd[2]) == 2):
+                continue
         it = look(fd[2][0])
         while it[0] == "mut" or is_call(it, "copied", "cloned", "into_iter", "iter"):
             it = look(it[1]) if it[0] == "mut" else look(it[2][0])
+        if indexed is not None and norm(indexed) != norm(it):
+            continue        # the position found in one table indexes another
         discr = facts.variant_discr(adt)
         if it[0] == "const" and isinstance(it[1], bytes):
             variants = [discr.get(b) for b in it[1]]
@@ -330,5 +343,85 @@ def table_search(facts, fn, adt, leaf=None):
             good = good and ok
         if not good or len(modes) != 1 or len(fns) != 1:
             continue
-        return {"variants": variants, "mode": modes.pop(), "subject": cap, "item_fn": fns.pop(), "conds": lf.conds, "leaf": lf}
+        conds = lf.conds
+        if indexed is not None:
+            # the test that the position was found is part of the form, not a side condition
+            conds = [c_ for c_ in conds if not (c_[0][0] == "discr" and norm(look(c_[0][1])) == norm(fd))]
+        return {"variants": variants, "mode": modes.pop(), "subject": cap, "item_fn": fns.pop(), "conds": conds, "leaf": lf}
     return None
+
+
+def pair_table_loop(facts, fn, adt):
+    """A parser written as a loop over a literal table of (spelling, value) pairs that returns the value of the first pair
+    whose spelling matches the input, and an error after the loop:
+        for (name, v) in [("a", A), ("b", B)] { if input.eq_ignore_ascii_case(name) { return Ok(v) } }  Err(..)
+    Returns None or {"pairs": [(spelling, variant)], "mode": 'exact' | 'ascii-ci', "subject": term}.  Fails closed (None) when a
+    path returns Ok some other way, the loop body does anything but compare, or the table is not a literal of constants."""
+    from .rules.util import look, is_call, last_seg, payload_of, norm, truth, option_is_some
+    lv = PathEnum(fn, facts).run()
+    table = None
+    subject = None
+    modes = set()
+    n_ok = 0
+    for lf in lv:
+        if lf.kind == "return":
+            r = look(lf.ret())
+            if not (r[0] == "agg" and r[2] == "Ok"):
+                continue
+            n_ok += 1
+            x = look(r[3][0])
+        elif lf.kind == "loop":
+            x = None
+        else:
+            return None
+        nxt, cmp_ = None, None
+        for (t, c, _b) in lf.conds:
+            if t[0] == "discr" and is_call(look(t[1]), "next") and option_is_some(c):
+                nxt = look(t[1])
+            y = look(t)
+            if y[0] == "call" and len(y[2]) == 2 and (y[1].endswith("PartialEq::eq") or last_seg(y[1]) == "eq_ignore_ascii_case") and truth(c) is not None:
+                cmp_ = (y, truth(c))
+        if nxt is None:
+            if lf.kind == "loop":
+                return None
+            return None     # an Ok that does not come out of the table
+        it = look(nxt[2][0])
+        while it[0] == "mut" or is_call(it, "into_iter", "iter", "copied", "cloned"):
+            it = look(it[1]) if it[0] == "mut" else look(it[2][0])
+        if it[0] != "array":
+            return None
+        if table is None:
+            table = it
+        elif norm(table) != norm(it):
+            return None
+        if cmp_ is None:
+            return None
+        y, tv = cmp_
+        item0 = lambda z: look(z)[0] == "field" and look(z)[3] == "0" and payload_of(look(z)[1]) is not None and norm(payload_of(look(z)[1])) == norm(nxt)
+        a, b = y[2]
+        subj = b if item0(a) else a if item0(b) else None
+        if subj is None:
+            return None
+        if subject is None:
+            subject = look(subj)
+        elif norm(subject) != norm(look(subj)):
+            return None
+        modes.add("ascii-ci" if last_seg(y[1]) == "eq_ignore_ascii_case" else "exact")
+        if lf.kind == "return":
+            # the value returned is the second component of the matching pair
+            if not (tv and x[0] == "field" and x[3] == "1" and payload_of(x[1]) is not None and norm(payload_of(x[1])) == norm(nxt)):
+                return None
+        elif tv:
+            return None     # the loop goes on after a match
+    if table is None or n_ok != 1 or len(modes) != 1:
+        return None
+    pairs = []
+    for el in table[1]:
+        el = look(el)
+        if not (el[0] == "tuple" and len(el[1]) == 2):
+            return None
+        k, v = look(el[1][0]), look(el[1][1])
+        if not (k[0] == "const" and isinstance(k[1], (str, bytes)) and v[0] == "agg" and v[1] == adt):
+            return None
+        pairs.append((k[1] if isinstance(k[1], str) else k[1].decode("latin-1"), v[2]))
+    return {"pairs": pairs, "mode": modes.pop(), "subject": subject}
